@@ -312,7 +312,57 @@ class _TestTmp(ast.NodeTransformer):
         return node
 
 
-RESHAPES = {"swap_if": _SwapIf, "flip_cmp": _FlipCmp, "ret_tmp": _RetTmp, "test_tmp": _TestTmp}
+class _SplitAnd(ast.NodeTransformer):
+    """if a and b: S   ->   if a:\n    if b: S        (only without else: the else arm would have to be duplicated)"""
+
+    def __init__(self):
+        self.n = 0
+
+    def visit_If(self, node):
+        self.generic_visit(node)
+        if not node.orelse and isinstance(node.test, ast.BoolOp) and isinstance(node.test.op, ast.And) and len(node.test.values) >= 2:
+            first, rest = node.test.values[0], node.test.values[1:]
+            inner = ast.If(test=rest[0] if len(rest) == 1 else ast.BoolOp(op=ast.And(), values=rest), body=node.body, orelse=[])
+            node.test, node.body = first, [inner]
+            self.n += 1
+        return node
+
+
+class _DeMorgan(ast.NodeTransformer):
+    """a or b  ->  not (not a and not b);   a and b  ->  not (not a or not b)      (in `if` / `while` tests only: truthiness is what counts there)"""
+
+    def __init__(self):
+        self.n = 0
+
+    @staticmethod
+    def _neg(e):
+        if isinstance(e, ast.UnaryOp) and isinstance(e.op, ast.Not):
+            return e.operand
+        if isinstance(e, ast.Compare) and len(e.ops) == 1:
+            inv = {ast.Eq: ast.NotEq, ast.NotEq: ast.Eq, ast.Lt: ast.GtE, ast.GtE: ast.Lt, ast.Gt: ast.LtE, ast.LtE: ast.Gt,
+                   ast.Is: ast.IsNot, ast.IsNot: ast.Is, ast.In: ast.NotIn, ast.NotIn: ast.In}
+            return ast.Compare(left=e.left, ops=[inv[type(e.ops[0])]()], comparators=e.comparators)
+        return ast.UnaryOp(op=ast.Not(), operand=e)
+
+    def _rewrite(self, t):
+        if isinstance(t, ast.BoolOp) and not any(isinstance(x, ast.NamedExpr) for x in ast.walk(t)):
+            other = ast.And() if isinstance(t.op, ast.Or) else ast.Or()
+            self.n += 1
+            return ast.UnaryOp(op=ast.Not(), operand=ast.BoolOp(op=other, values=[self._neg(v) for v in t.values]))
+        return t
+
+    def visit_If(self, node):
+        self.generic_visit(node)
+        node.test = self._rewrite(node.test)
+        return node
+
+    def visit_While(self, node):
+        self.generic_visit(node)
+        node.test = self._rewrite(node.test)
+        return node
+
+
+RESHAPES = {"swap_if": _SwapIf, "flip_cmp": _FlipCmp, "ret_tmp": _RetTmp, "test_tmp": _TestTmp, "split_and": _SplitAnd, "demorgan": _DeMorgan}
 
 
 def reshape_variants(root):
